@@ -66,7 +66,24 @@ pub(crate) struct File {
 struct FileInner {
     std_file: StdFile,
     size: AtomicU64,
-    synced_size: AtomicU64
+    synced_size: AtomicU64,
+    /// Bytes reserved at the end of the file whose write has not finished yet
+    in_flight: AtomicU64,
+}
+
+impl FileInner {
+    /// Reserves `len` bytes at the end of the file and returns their offset. The counter of bytes in
+    /// flight is advanced first: whoever reads `size` and then `in_flight` never sees a reservation in
+    /// `size` that is missing from `in_flight`
+    fn reserve(&self, len: u64) -> u64 {
+        self.in_flight.fetch_add(len, Ordering::SeqCst);
+        self.size.fetch_add(len, Ordering::SeqCst)
+    }
+
+    /// The write into a reserved range has finished (successfully or not)
+    fn release(&self, len: u64) {
+        self.in_flight.fetch_sub(len, Ordering::SeqCst);
+    }
 }
 
 #[derive(PartialEq, Eq)]
@@ -95,16 +112,20 @@ impl File {
         let file_inner = self.inner.clone();
         if Self::can_run_inplace(len) {
             Self::inplace_sync_call(move || {
-                let offset = file_inner.size.fetch_add(len, Ordering::SeqCst);
+                let offset = file_inner.reserve(len);
                 let (res, data) = c.create(offset);
-                Self::write_data(&file_inner.std_file, offset, res)?;
+                let written = Self::write_data(&file_inner.std_file, offset, res);
+                file_inner.release(len);
+                written?;
                 Ok(data)
             })
         } else {
             Self::background_sync_call(move || {
-                let offset = file_inner.size.fetch_add(len, Ordering::SeqCst);
+                let offset = file_inner.reserve(len);
                 let (res, data) = c.create(offset);
-                Self::write_data(&file_inner.std_file, offset, res)?;
+                let written = Self::write_data(&file_inner.std_file, offset, res);
+                file_inner.release(len);
+                written?;
                 Ok(data)
             })
             .await
@@ -125,13 +146,17 @@ impl File {
         let file_inner = self.inner.clone();
         if Self::can_run_inplace(buf.len() as u64) {
             Self::inplace_sync_call(move || {
-                let offset = file_inner.size.fetch_add(buf.len() as u64, Ordering::SeqCst);
-                file_inner.std_file.write_all_at(&buf, offset)
+                let offset = file_inner.reserve(buf.len() as u64);
+                let written = file_inner.std_file.write_all_at(&buf, offset);
+                file_inner.release(buf.len() as u64);
+                written
             })
         } else {
             Self::background_sync_call(move || {
-                let offset = file_inner.size.fetch_add(buf.len() as u64, Ordering::SeqCst);
-                file_inner.std_file.write_all_at(&buf, offset)
+                let offset = file_inner.reserve(buf.len() as u64);
+                let written = file_inner.std_file.write_all_at(&buf, offset);
+                file_inner.release(buf.len() as u64);
+                written
             })
             .await
         }
@@ -176,7 +201,10 @@ impl File {
 
     pub(crate) async fn fsyncdata(&self) -> IOResult<()> {
         let file_inner = self.inner.clone();
+        // Only bytes whose write has finished before the sync starts are covered by it: a range that
+        // is reserved but not written yet must stay in the count of dirty bytes
         let size = self.size();
+        let size = size.saturating_sub(self.inner.in_flight.load(Ordering::SeqCst));
         Self::background_sync_call(
             move || {
                file_inner.std_file.sync_all()?;
@@ -284,6 +312,7 @@ impl File {
                 std_file,
                 size: AtomicU64::new(size),
                 synced_size: AtomicU64::new(size),
+                in_flight: AtomicU64::new(0),
             }),
         })
     }
@@ -315,7 +344,8 @@ impl File {
             inner: Arc::new(FileInner { 
                 std_file, 
                 size,
-                synced_size
+                synced_size,
+                in_flight: AtomicU64::new(0),
             })
         };
         Ok(file)
